@@ -207,7 +207,7 @@ func contains(l []string, s string) bool {
 func specs() []rsx.RouteSpec {
 	var out []rsx.RouteSpec
 	for _, p := range []string{"/", "/a", "/a/", "/{x}", "/{x}/", "/a/{x}", "/*{w}", "a.b/a", "a.b/a/", "{h}.b/a", "{h}.{t}/b"} {
-		for _, m := range []string{"GET", "POST", "FOO", "OPTIONS"} {
+		for _, m := range []string{"GET", "POST", "FOO", "OPTIONS", "CONNECT"} {
 			for s := 0; s < 3; s++ {
 				out = append(out, rsx.RouteSpec{Method: m, Pattern: p, Slash: s})
 			}
@@ -386,7 +386,7 @@ func init() {
 	mc.Register(&mc.Check{
 		ID:    "C11",
 		Level: "exploration",
-		Rule: "every subset (size<=K) of (method, pattern, slash option) triples over 4 methods x 11 patterns x 3 options, under each of the 4 (method-not-allowed, auto-OPTIONS) profiles, x every request of the alphabet (6 request methods, 2 hosts, paths of depth<=2 and '*'), requests issued in sequence on one router (forward then reverse order) with a deterministic context pool; " +
+		Rule: "every subset (size<=K) of (method, pattern, slash option) triples over 5 methods (incl. CONNECT) x 11 patterns x 3 options, under each of the 4 (method-not-allowed, auto-OPTIONS) profiles, x every request of the alphabet (6 request methods, 2 hosts, paths of depth<=2 and '*'), requests issued in sequence on one router (forward then reverse order) with a deterministic context pool; " +
 			"non-trivial = some method has a route serving the requested host and path (so 405/OPTIONS/Allow are in play)",
 		Assumptions: []string{
 			"serves(method) = reference direct match or reference trailing-slash match on a route that ignores trailing slashes (reference matcher as in C01/C08)",
